@@ -13,7 +13,7 @@ pub mod c17 {
     use super::*;
 
     #[kani::proof]
-    fn q_add_sub_value() {
+    pub fn q_add_sub_value() {
         let s: u8 = kani::any();
         let b: u8 = kani::any();
         let mut c = state(s);
@@ -54,7 +54,7 @@ pub mod c17 {
             #[kani::proof]
             #[kani::unwind(12)]
             #[kani::solver(z3)]
-            fn $name() {
+            pub fn $name() {
                 let s: u8 = kani::any();
                 let data: [u8; $n] = kani::any();
                 let mut c = state(s);
@@ -103,7 +103,7 @@ pub mod c17 {
     #[kani::proof]
     #[kani::unwind(12)]
     #[kani::solver(z3)]
-    fn q_sink_interface() {
+    pub fn q_sink_interface() {
         let s: u8 = kani::any();
         let b: u8 = kani::any();
         let w: u16 = kani::any();
@@ -195,20 +195,20 @@ pub mod c17 {
 
     #[kani::proof]
     #[kani::unwind(5)]
-    fn q_ops_3() {
+    pub fn q_ops_3() {
         op_program(3);
     }
 
     #[kani::proof]
     #[kani::unwind(7)]
-    fn t_ops_5() {
+    pub fn t_ops_5() {
         op_program(5);
     }
 
     /// u8sum helper == arithmetic sum of serialised bytes (C14 shares this; cheap here)
     #[kani::proof]
     #[kani::unwind(10)]
-    fn q_u8sum_helper() {
+    pub fn q_u8sum_helper() {
         let b: Blob<6> = Blob::any();
         let r: Rec<8> = Rec::of(&b);
         assert!(acpi_tables::u8sum(&b) == r.sum(), "C17: u8sum == sum of serialised bytes");
